@@ -211,6 +211,28 @@ def _verdict_cache_load(items, tag):
     return hits, todo
 
 
+def _run_units_pool(units, nproc):
+    """one process per unit; a worker that dies (killed, solver library crash) must not hang the run:
+    its unit - and every unit still pending in the broken pool - is re-run in this process"""
+    from concurrent.futures import ProcessPoolExecutor
+    from concurrent.futures.process import BrokenProcessPool
+    reports = [None] * len(units)
+    try:
+        with ProcessPoolExecutor(max_workers=nproc, mp_context=mp.get_context("fork")) as ex:
+            futs = [ex.submit(run_unit_cached, u) for u in units]
+            for i, f in enumerate(futs):
+                try:
+                    reports[i] = f.result()
+                except BrokenProcessPool:
+                    break
+    except BrokenProcessPool:
+        pass
+    for i, u in enumerate(units):
+        if reports[i] is None:
+            reports[i] = run_unit_cached(u)
+    return reports
+
+
 def run_units(units, nproc=None, timeout=10, retry=60, want_both=False, only_prop=None):
     """-> (unit reports, obligation table {oid: {...}})"""
     import pickle
@@ -221,8 +243,7 @@ def run_units(units, nproc=None, timeout=10, retry=60, want_both=False, only_pro
         reports = [run_unit_cached(u) for u in units]
     else:
         source_hash()
-        with mp.get_context("fork").Pool(min(nproc, len(units))) as pool:
-            reports = pool.map(run_unit_cached, units, chunksize=1)
+        reports = _run_units_pool(units, min(nproc, len(units)))
     # path feasibility pre-pass
     pitems = [((ri, pi), txt) for ri, rep in enumerate(reports) for pi, txt in rep.get("path_checks", [])]
     infeasible = set()
